@@ -9,6 +9,8 @@ package store
 
 import (
 	"bytes"
+
+	"github.com/douban/gobeansdb/cmem"
 )
 
 // VerifHook, when set, is called at every verifPoint.
@@ -58,4 +60,59 @@ func VerifEncodeRecord(key, body []byte, flag uint32, ver int32, ts uint32) []by
 	var buf bytes.Buffer
 	wrapRecord(rec).append(&buf, true)
 	return buf.Bytes()
+}
+
+// ---- record codec (C09) ----
+
+// VerifRec is a copy of one decoded record.
+type VerifRec struct {
+	Key     []byte
+	Body    []byte
+	Flag    uint32
+	Ver     int32
+	TS      uint32
+	Offset  uint32
+	RecSize uint32
+}
+
+func verifCopyRec(rec *Record, offset uint32) VerifRec {
+	r := VerifRec{Flag: rec.Payload.Flag, Ver: rec.Payload.Ver, TS: rec.Payload.TS, Offset: offset, RecSize: rec.Payload.RecSize}
+	r.Key = append([]byte{}, rec.Key...)
+	r.Body = append([]byte{}, rec.Payload.Body...)
+	return r
+}
+
+// VerifReadRecordAt is readRecordAtPath with the result copied out and the read buffer released.
+func VerifReadRecordAt(path string, offset uint32) (*VerifRec, error) {
+	wrec, err := readRecordAtPath(path, offset)
+	if err != nil {
+		return nil, err
+	}
+	r := verifCopyRec(wrec.rec, offset)
+	cmem.DBRL.GetData.SubSizeAndCount(wrec.rec.Payload.CArray.Cap)
+	wrec.rec.Payload.CArray.Free()
+	return &r, nil
+}
+
+// VerifScanFile runs the DataStreamReader loop every caller runs, from offset start.
+func VerifScanFile(path string, start uint32, bufsz int) (recs []VerifRec, broken uint32, err error) {
+	r, err := newDataStreamReader(path, bufsz)
+	if err != nil {
+		return nil, 0, err
+	}
+	defer r.Close()
+	if start != 0 {
+		r.seek(start)
+	}
+	for {
+		rec, offset, sizeBroken, e := r.Next()
+		broken += sizeBroken
+		if e != nil {
+			return recs, broken, e
+		}
+		if rec == nil {
+			return recs, broken, nil
+		}
+		recs = append(recs, verifCopyRec(rec, offset))
+	}
 }
